@@ -23,6 +23,7 @@ type Mon struct {
 	FailOnDiscipline bool
 	Discipline       atomic.Int64
 	Ops              atomic.Int64
+	Quiet            bool // count operations but do not log them (long stress runs)
 }
 
 // Violation implements vchan.Monitor.
@@ -31,12 +32,16 @@ func (m *Mon) Violation(end, kind, detail string) {
 	m.Log.Add("chan.violation", end, kind+": "+detail)
 	if m.FailOnDiscipline {
 		m.C.Failf("channel discipline (%s) on %s: %s", kind, end, detail)
+		m.C.Flush() // the run may not survive the misuse; keep the evidence
 	}
 }
 
 // Event implements vchan.Monitor.
 func (m *Mon) Event(end, what string, data []byte) {
 	m.Ops.Add(1)
+	if m.Quiet {
+		return
+	}
 	switch what {
 	case "send.enter":
 		m.Log.Add("wire."+end, "send", string(data))
@@ -55,6 +60,8 @@ type ServerOpts struct {
 	BaseContext      func() context.Context
 	Assigner         jrpc2.Assigner // default: the rig's Handlers
 	Faults           []vchan.Fault  // installed on the server's end before Start
+	Spin             int            // Gosched iterations inside each channel operation (default 2)
+	Validator        func([]byte) error
 	RPCLog           jrpc2.RPCLogger
 }
 
@@ -84,6 +91,12 @@ func NewServerRig(c *vt.Ctx, ctrl *sched.Controller, o ServerOpts) *ServerRig {
 	r.End.PipeLike = o.PipeLike
 	for _, f := range o.Faults {
 		r.End.AddFault(f)
+	}
+	if o.Spin > 0 {
+		r.End.Spin = o.Spin
+	}
+	if o.Validator != nil {
+		r.End.SetValidator(o.Validator)
 	}
 	var asg jrpc2.Assigner = r.H
 	if o.Assigner != nil {
